@@ -452,8 +452,13 @@ pub fn build(raw: &Raw) -> Case13 {
                 let mut m2 = macros[mi].clone();
                 m2.body.push(BItem::Ins(vec![Piece::Lit(["stc", "add bp,3", "mov word [6],9"][s.pick(3)].to_string())]));
                 macros.push(m2);
+                // ... and so must every macro that uses it: up to three earlier uses are repeated as well
+                let earlier: Vec<UseSite> = code.iter().filter_map(|c| if let CItem::Use(x) = c { if x.name != "nosuch" { Some(x.clone()) } else { None } } else { None }).rev().take(3).collect();
                 code.push(CItem::Def(macros.len() - 1));
                 code.push(CItem::Use(u));
+                for x in earlier {
+                    code.push(CItem::Use(x));
+                }
             }
         }
     }
